@@ -157,6 +157,10 @@ def check_status_semantics(run, F, reg, count_inputs=None):
     else:
         e = unwrap(sc["body"])
         ok, why = status_code_shape(e, unknown_path)
+        if not ok:
+            ok2, why2 = status_code_paths(sc, unknown_path)      # any other spelling of the same two exits (let-else, if-let, temporaries)
+            if ok2:
+                ok, why = True, why2
         run.ob("R-STATUS", "status_code = from_u16(operation_or_status) or-else Unknown", ok, why, site(sc, e))
         if ok and "ipp::model::StatusCode" in F.adts:
             # totality over all 65536 values on the extracted table
@@ -289,6 +293,41 @@ def check(run, views, tier):
         include(run, c07, {cfg: {"ipp": crates["ipp"]}}, tier)
     run.meta.setdefault("coverage_extra", {})["exhaustive"] = True
     run.meta["coverage_extra"]["inputs_enumerated"] = exhaustive_inputs
+
+
+def status_code_paths(body, unknown_path):
+    """The same judgement on the function's paths: exactly the path `from_u16::<StatusCode>(self.operation_or_status)` is Some -> that
+    symbol, and the path it is None -> the unknown symbol; or one path returning f(x).unwrap_or(U)."""
+    from ..symx import TooManyPaths, paths_of, tshow
+    from ..terms import is_call, opt_polarity
+    try:
+        ps = paths_of(body)
+    except TooManyPaths:
+        return False, "too many paths"
+
+    def dec(t):
+        if not (is_call(t, "num_traits::FromPrimitive::from_u16") and t[2] == [("field", ("var", "self"), "operation_or_status")]):
+            return False
+        node = t[3] if len(t) > 3 and isinstance(t[3], dict) else {}
+        return ((node.get("f") or {}).get("res", {}).get("args") or [])[:1] == ["ipp::model::StatusCode"]
+    unknown = ("ctor", unknown_path, [])
+    seen = set()
+    for p in ps:
+        if p.kind not in ("fall", "return"):
+            return False, "exit of kind %s" % p.kind
+        if not p.conds and is_call(p.ret, "std::option::Option::<T>::unwrap_or") and dec(p.ret[2][0]) and p.ret[2][1] == unknown:
+            seen |= {True, False}
+            continue
+        if len(p.conds) != 1 or p.conds[0][0] != "match" or not dec(p.conds[0][1]):
+            return False, "path condition is not the decoding test: %s" % [c[0] for c in p.conds]
+        pol = opt_polarity(p.conds[0])
+        if pol is True and p.ret == ("proj", p.conds[0][1], "Some.0"):
+            seen.add(True)
+        elif pol is False and p.ret == unknown:
+            seen.add(False)
+        else:
+            return False, "on the %s side the function returns %s" % ("Some" if pol else "None", tshow(p.ret)[:120])
+    return seen == {True, False}, "paths: decoded symbol when known, %s otherwise" % unknown_path.split("::")[-1]
 
 
 def status_code_shape(e, unknown_path):
